@@ -336,4 +336,15 @@ def SpecEmit (c : Cfg) (readme : List String) (leaves : List (String × String))
         else if !(calledNames e).all byValue then (false, "a function that needs an output parameter cannot be called from a query")
         else (false, "the result is not of an arithmetic type")
 
+/-! ### package level: the header is reachable where the function is called -/
+
+/-- Every rendered C++ file that calls a `std::` math function includes `<cmath>`, directly or
+through a rendered header it includes. -/
+def PackageSpec (files : List FileObs) : Bool :=
+  files.all fun f => !f.callsMath || sees files (files.length + 1) f.name "cmath"
+
+/-- the first file that calls a math function without seeing `<cmath>` -/
+def packageCulprit (files : List FileObs) : Option String :=
+  (files.find? fun f => f.callsMath && !sees files (files.length + 1) f.name "cmath").map (·.name)
+
 end FaxVerif.C12
